@@ -66,34 +66,34 @@ def _normalise(func: ast.FunctionDef, mapping: Dict[str, str]) -> List[str]:
 
 def r06_2(ctx: Ctx) -> None:
     record = ctx.repo.cls(REC, "Record")
-    forms: Dict[str, List[str]] = {}
     for family, (adder, lst, num, cls) in FAMILIES.items():
-        func = ctx.fn(REC, f"Record.{adder}")
-        param = func.args.args[1].arg
-        forms[family] = _normalise(func, {param: "X", lst: "_LIST", num: "_NUM", cls: "CLS"})
-    reference = forms["protocluster"]
-    for family, form in forms.items():
-        adder = FAMILIES[family][0]
-        diff = [f"{a!r} != {b!r}" for a, b in zip(reference, form) if a != b]
-        if len(reference) != len(form):
-            diff.append(f"{len(form)} statements instead of {len(reference)}")
-        ctx.ob("R06.2", REC, ctx.fn(REC, f"Record.{adder}"), f"Record.{adder}", "clone of add_protocluster", not diff,
-               "the three area adders are the same algorithm modulo the family names", detail="; ".join(diff)[:300],
-               form=" | ".join(form)[:300])
-    # the shared algorithm itself
-    func = ctx.fn(REC, "Record.add_protocluster")
-    text = " | ".join(reference)
-    checks = [
-        ("ordered insert", "index = bisect.bisect_left(self._LIST, X)" in text and "self._LIST.insert(index, X)" in text,
-         "the area is inserted at the bisection point of the sorted list"),
-        ("parent record", "X.parent_record = self" in text, "the area's parent record is set"),
-        ("renumber", "for i in range(index, len(self._LIST)):" in text and "self._NUM[self._LIST[i]] = i + 1" in text,
-         "every area from the insertion index to the end is renumbered i + 1 (1-based, in list order)"),
-        ("link genes", "for cds in self.get_cds_features_within_location(X.location):" in text and "X.add_cds(cds)" in text,
-         "every gene within the area's location is linked into the area"),
-    ]
-    for name, ok, what in checks:
-        ctx.ob("R06.2", REC, func, "Record.add_protocluster", name, ok, what, form=text[:300])
+        qual = f"Record.{adder}"
+        func = ctx.fn(REC, qual)
+        cfg = CFG(func)
+        area = func.args.args[1].arg
+        inserts = [c for c in calls(func) if txt(c.func) == f"self.{lst}.insert" and len(c.args) == 2 and txt(c.args[1]) == area]
+        ok = len(inserts) == 1 and txt(inline_reaching(cfg, inserts[0], inserts[0].args[0])) == f"bisect.bisect_left(self.{lst}, {area})"
+        ctx.ob("R06.2", REC, inserts[0] if inserts else func, qual, "ordered insert", ok,
+               "the area is inserted at the bisection point of the sorted list (the three adders are the same algorithm "
+               "modulo the family names: each is held to the same obligations)", form=txt(inserts[0])[:100] if inserts else "")
+        ok = any(isinstance(n, ast.Assign) and txt(n.targets[0]) == f"{area}.parent_record" and txt(n.value) == "self"
+                 for n in walk_local(func))
+        ctx.ob("R06.2", REC, func, qual, "parent record", ok, "the area's parent record is set", form="")
+        ok = _renumbers(func, f"self.{lst}", f"self.{num}")
+        if ok and inserts:
+            # renumbering starts at the insertion index
+            index_names = {txt(inserts[0].args[0])}
+            text = " ".join(txt(n) for n in walk_local(func) if isinstance(n, (ast.For, ast.Call)))
+            ok = any(name in text for name in index_names)
+        ctx.ob("R06.2", REC, func, qual, "renumber", ok,
+               "every area from the insertion index to the end is renumbered i + 1 (1-based, in list order)", form="")
+        loops = [n for n in walk_local(func) if isinstance(n, ast.For)
+                 and txt(n.iter) == f"self.get_cds_features_within_location({area}.location)"]
+        ok = len(loops) == 1 and any(txt(c.func) == f"{area}.add_cds" and txt(c.args[0]) == txt(loops[0].target) for c in calls(loops[0]))
+        ctx.ob("R06.2", REC, func, qual, "link genes", ok,
+               "every gene within the area's location is linked into the area", form="")
+        ok = any(isinstance(n, ast.Assert) and txt(n.test) == f"isinstance({area}, {cls})" for n in walk_local(func))
+        ctx.ob("R06.2", REC, func, qual, "type asserted", ok, "only areas of the family's own class are accepted", form="")
     # getters
     for kind, (lst, num, getter, number) in {
             "protocluster": ("_protoclusters", "_protocluster_numbering", "get_protocluster", "get_protocluster_number"),
@@ -233,29 +233,36 @@ def r06_1(ctx: Ctx) -> None:
 
 
 def _renumbers(func: ast.AST, lst: str, table: str) -> bool:
-    """ every element from the insertion index to the end gets its list position + 1:
-        `for i in range(index, len(L)): T[L[i]] = i + 1`  or  `for n, x in enumerate(L[index:], index + 1): T[x] = n` """
-    for loop in [n for n in walk_local(func) if isinstance(n, ast.For)]:
-        it = loop.iter
-        stores = [s for s in loop.body if isinstance(s, ast.Assign) and isinstance(s.targets[0], ast.Subscript)
-                  and txt(s.targets[0].value) == table]
-        if len(stores) != 1 or len(loop.body) != 1:
-            continue
-        store = stores[0]
+    """ every element from the insertion index to the end gets its list position + 1, as a loop
+        `for i in range(index, len(L)): T[L[i]] = i + 1`, `for n, x in enumerate(L[index:], index + 1): T[x] = n`,
+        or the same pairs handed to T.update({...}) as a dict comprehension """
+    cfg = CFG(func)
+
+    def pairs(iterable: ast.AST, target: ast.AST, key: ast.AST, value: ast.AST, at: ast.AST) -> bool:
+        it = inline_reaching(cfg, at, iterable)
         if isinstance(it, ast.Call) and call_name(it) == "range" and len(it.args) == 2 and txt(it.args[1]) == f"len({lst})" \
-                and isinstance(loop.target, ast.Name):
-            i = loop.target.id
-            start = txt(it.args[0])
-            if txt(store.targets[0].slice) == f"{lst}[{i}]" and txt(store.value) in (f"{i} + 1", f"1 + {i}"):
-                return bool(start)
-        if isinstance(it, ast.Call) and call_name(it) == "enumerate" and it.args and isinstance(loop.target, ast.Tuple) \
-                and len(loop.target.elts) == 2 and isinstance(it.args[0], ast.Subscript) and txt(it.args[0].value) == lst \
+                and isinstance(target, ast.Name):
+            i = target.id
+            return txt(key) == f"{lst}[{i}]" and txt(value) in (f"{i} + 1", f"1 + {i}")
+        if isinstance(it, ast.Call) and call_name(it) == "enumerate" and it.args and isinstance(target, ast.Tuple) \
+                and len(target.elts) == 2 and isinstance(it.args[0], ast.Subscript) and txt(it.args[0].value) == lst \
                 and isinstance(it.args[0].slice, ast.Slice) and it.args[0].slice.upper is None and it.args[0].slice.lower is not None:
             start = it.args[1] if len(it.args) > 1 else kwarg(it, "start")
             lower = txt(it.args[0].slice.lower)
-            number, elem = (txt(e) for e in loop.target.elts)
-            if start is not None and txt(start) in (f"{lower} + 1", f"1 + {lower}") \
-                    and txt(store.targets[0].slice) == elem and txt(store.value) == number:
+            number, elem = (txt(e) for e in target.elts)
+            return start is not None and txt(start) in (f"{lower} + 1", f"1 + {lower}") \
+                and txt(key) == elem and txt(value) == number
+        return False
+    for loop in [n for n in walk_local(func) if isinstance(n, ast.For)]:
+        stores = [st for st in loop.body if isinstance(st, ast.Assign) and isinstance(st.targets[0], ast.Subscript)
+                  and txt(st.targets[0].value) == table]
+        if len(stores) == 1 and len(loop.body) == 1 and pairs(loop.iter, loop.target, stores[0].targets[0].slice, stores[0].value, loop):
+            return True
+    for call in calls(func):
+        if txt(call.func) == f"{table}.update" and len(call.args) == 1 and isinstance(call.args[0], ast.DictComp) \
+                and len(call.args[0].generators) == 1 and not call.args[0].generators[0].ifs:
+            comp = call.args[0]
+            if pairs(comp.generators[0].iter, comp.generators[0].target, comp.key, comp.value, call):
                 return True
     return False
 
@@ -264,15 +271,28 @@ def r06_3(ctx: Ctx) -> None:
     qual = "Record.add_region"
     func = ctx.fn(REC, qual)
     cfg = CFG(func)
-    loops = [n for n in walk_local(func) if isinstance(n, ast.For) and "self._regions" in txt(n.iter)
-             and "enumerate" in txt(n.iter)]
+    def scan_loops(f: ast.AST):
+        return [n for n in walk_local(f) if isinstance(n, ast.For) and "self._regions" in txt(n.iter) and "enumerate" in txt(n.iter)]
+    host, host_call = func, None
+    loops = scan_loops(func)
+    if not loops:
+        # the scan may live in a private method that add_region calls first (its `return` sits inside the loop, so it
+        # cannot be inlined): analyse it there, and treat the call as the scan
+        for call in calls(func):
+            if isinstance(call.func, ast.Attribute) and txt(call.func.value) == "self" and call.func.attr.startswith("_") \
+                    and ctx.repo.has_func(REC, f"Record.{call.func.attr}"):
+                helper = ctx.fn(REC, f"Record.{call.func.attr}")
+                if scan_loops(helper):
+                    host, host_call, loops = helper, call, scan_loops(helper)
+                    break
     if not loops:
         raise AnalysisError("add_region: scan over existing regions not found")
     loop = loops[0]
+    new_region = host.args.args[1].arg
     tests = [n for n in loop.body if isinstance(n, ast.If) and "overlaps_with" in txt(n.test)]
-    ok = bool(tests) and any(isinstance(s, ast.Raise) for s in tests[0].body) and \
+    ok = bool(tests) and any(isinstance(s, ast.Raise) for s in tests[0].body) and isinstance(tests[0].test, ast.Call) and \
         sorted(x for x in (txt(tests[0].test.func.value), txt(tests[0].test.args[0]))) == \
-        sorted(["region", txt(loop.target.elts[1])])  # type: ignore[attr-defined]
+        sorted([new_region, txt(loop.target.elts[1])])  # type: ignore[attr-defined]
     ctx.ob("R06.3", REC, tests[0] if tests else loop, qual, "overlap refused", ok,
            "a region overlapping any existing region is refused with an error", form=txt(tests[0].test) if tests else "")
     # the overlap test is the first thing done with each existing region (before a possible break)
@@ -288,9 +308,14 @@ def r06_3(ctx: Ctx) -> None:
             mutations.append(node)
         if isinstance(node, ast.Call) and txt(node.func) == "region.add_cds":
             mutations.append(node)
-    head = cfg.n(loop)
-    ok = len(mutations) >= 4 and all(cfg.dominates(head, cfg.n(m)) and cfg.n(m) not in cfg.loop_body_nodes(loop)
-                                     for m in mutations)
+    if host_call is None:
+        head = cfg.n(loop)
+        ok = len(mutations) >= 4 and all(cfg.dominates(head, cfg.n(m)) and cfg.n(m) not in cfg.loop_body_nodes(loop)
+                                         for m in mutations)
+    else:
+        head = cfg.n(host_call)
+        ok = len(mutations) >= 4 and all(cfg.dominates(head, cfg.n(m)) and cfg.n(m) != head for m in mutations) and \
+            not [w for w in walk_local(host) if isinstance(w, ast.Assign) and any(txt(t).startswith("self.") for t in w.targets)]
     ctx.ob("R06.3", REC, func, qual, "mutation after the scan", ok,
            "the record is modified only after every existing region has passed the overlap test",
            form=f"{len(mutations)} mutating statements")
@@ -444,7 +469,7 @@ def r06_4_5(ctx: Ctx) -> None:
 
 def run(ctx: Ctx) -> None:
     ctx.rule("R06.1", "back links set when building areas are reset when clearing them; clear_* call chain", floor=9)
-    ctx.rule("R06.2", "area adders and getters are sibling clones: ordered insert, 1-based renumbering", floor=15)
+    ctx.rule("R06.2", "area adders and getters are sibling clones: ordered insert, 1-based renumbering", floor=20)
     ctx.rule("R06.3", "add_region refuses overlap before any mutation and renumbers", floor=5)
     ctx.rule("R06.4", "create_regions partitions areas by class and builds one region per section", floor=3)
     ctx.rule("R06.5", "the sweep's section split is the negated overlap predicate", floor=5)
